@@ -131,38 +131,6 @@ def check(ctx):
     tg = prog.must_body("acmed::config::Endpoint::to_generic")
     news = tg.calls_to("acmed::endpoint::Endpoint::new")
     ctx.floor(R4, "Endpoint::new call in config::Endpoint::to_generic", len(news), 1)
-    for c in news:
-        sl = arg_origins(c, 4)
-        df = deep_fields(prog, sl)
-        want = {"cmdline": sl.has_leaf("param:3"),
-                "endpoint": ("acmed::config::Endpoint", "root_certificates") in df,
-                "global": ("acmed::config::GlobalOptions", "root_certificates") in df}
-        for nm, ok in want.items():
-            ctx.require(R4, ok, c.where(), "the root list includes the %s certificates" % nm, ["config::Endpoint::to_generic", "roots-" + nm])
-        shr = [v for v in sl.via if v.rsplit("::", 1)[-1] in ("filter", "take", "skip", "truncate", "retain", "dedup", "pop", "first", "last", "clear", "drain")]
-        ctx.require(R4, not shr, c.where(), "no element is dropped from the list (%s)" % shr, ["config::Endpoint::to_generic", "roots-shrunk"])
-    # the three sources are ADDED to each other, none is a fallback for another: the code adding one source's roots stays
-    # reachable when the other optional source is present
-    from ..util import enum_edges
-    EPF, GLF = ("acmed::config::Endpoint", "root_certificates"), ("acmed::config::GlobalOptions", "root_certificates")
-    adders = {}
-    for c in tg.calls:
-        if c.bb not in tg.live_blocks() or (c.name or "").rsplit("::", 1)[-1] not in ("extend", "push", "append", "extend_from_slice", "chain"):
-            continue
-        for k_ in range(1, len(c.args)):
-            f_ = deep_fields(prog, arg_origins(c, k_))
-            if EPF in f_:
-                adders.setdefault("endpoint", []).append(c)
-            if GLF in f_:
-                adders.setdefault("global", []).append(c)
-    for nm, other in (("global", EPF), ("endpoint", GLF)):
-        rem, nt = enum_edges(tg, other, "Some")
-        reach = tg.reachable(0, removed_edges=rem)
-        cs_ = adders.get(nm, [])
-        # (no test of the other source at all — e.g. `a.iter().flatten().chain(b.iter().flatten())` — is the unconditional union)
-        ctx.require(R4, bool(cs_) and any(c.bb in reach for c in cs_), cs_[0].where() if cs_ else "%s:%s" % (tg.file, tg.line),
-                    "the %s roots are added also when the %s list is present (union of the sources, not a fallback)" % (nm, "endpoint's" if nm == "global" else "global"),
-                    ["config::Endpoint::to_generic", "roots-fallback", nm])
     # ... and, whenever the function can be EVALUATED on concrete lists (abstract interpretation with lists, iterator chains and Option
     # combinators), the list handed to Endpoint::new is exactly command line + endpoint + global for all 12 presence combinations
     from ..absint import NONE, Val, marker, ok, run, some, struct_val, vbool, vstr
@@ -194,6 +162,40 @@ def check(ctx):
                 ctx.require(R4, have == want_l, "%s:%s" % (tg.file, tg.line), "roots for (command line %s, endpoint %s, global %s) = %s (expected %s)" % (cli, ep, gl, have, want_l),
                             ["config::Endpoint::to_generic", "roots-table", str(cli), str(ep), gl])
     ctx.notes.append("Endpoint::to_generic root list evaluated on %d/12 presence combinations" % n_eval)
+    if n_eval < 12:
+        # not (fully) evaluable: the shape of the code decides
+        for c in news:
+            sl = arg_origins(c, 4)
+            df = deep_fields(prog, sl)
+            want = {"cmdline": sl.has_leaf("param:3"),
+                    "endpoint": ("acmed::config::Endpoint", "root_certificates") in df,
+                    "global": ("acmed::config::GlobalOptions", "root_certificates") in df}
+            for nm, ok in want.items():
+                ctx.require(R4, ok, c.where(), "the root list includes the %s certificates" % nm, ["config::Endpoint::to_generic", "roots-" + nm])
+            shr = [v for v in sl.via if v.rsplit("::", 1)[-1] in ("filter", "take", "skip", "truncate", "retain", "dedup", "pop", "first", "last", "clear", "drain")]
+            ctx.require(R4, not shr, c.where(), "no element is dropped from the list (%s)" % shr, ["config::Endpoint::to_generic", "roots-shrunk"])
+        # the three sources are ADDED to each other, none is a fallback for another: the code adding one source's roots stays
+        # reachable when the other optional source is present
+        from ..util import enum_edges
+        EPF, GLF = ("acmed::config::Endpoint", "root_certificates"), ("acmed::config::GlobalOptions", "root_certificates")
+        adders = {}
+        for c in tg.calls:
+            if c.bb not in tg.live_blocks() or (c.name or "").rsplit("::", 1)[-1] not in ("extend", "push", "append", "extend_from_slice", "chain"):
+                continue
+            for k_ in range(1, len(c.args)):
+                f_ = deep_fields(prog, arg_origins(c, k_))
+                if EPF in f_:
+                    adders.setdefault("endpoint", []).append(c)
+                if GLF in f_:
+                    adders.setdefault("global", []).append(c)
+        for nm, other in (("global", EPF), ("endpoint", GLF)):
+            rem, nt = enum_edges(tg, other, "Some")
+            reach = tg.reachable(0, removed_edges=rem)
+            cs_ = adders.get(nm, [])
+            # (no test of the other source at all — e.g. `a.iter().flatten().chain(b.iter().flatten())` — is the unconditional union)
+            ctx.require(R4, bool(cs_) and any(c.bb in reach for c in cs_), cs_[0].where() if cs_ else "%s:%s" % (tg.file, tg.line),
+                        "the %s roots are added also when the %s list is present (union of the sources, not a fallback)" % (nm, "endpoint's" if nm == "global" else "global"),
+                        ["config::Endpoint::to_generic", "roots-fallback", nm])
     en = prog.must_body("acmed::endpoint::Endpoint::new")
     for i, st in agg_assigns(en, "acmed::endpoint::Endpoint"):
         idx = st["rv"]["fields"].index("root_certificates")
